@@ -12,6 +12,11 @@ CONSTANTS
     PRIOS = {0}
     JUNK = {"garbage"}
     MAXJUNK = 0
+    MAXIMPORTS = 1
+    FAULTS = {0}
+    MarshalStopsOnError = TRUE
+    TruncInLock = TRUE
+    MAXLOADS = 2
     REKEEP = FALSE
     MAXSAVES = 0
     ImportCleans = TRUE
